@@ -636,10 +636,8 @@ def evaluate(chk, cases, out, seen):
 
 # verbs whose known-finding class depends on the in-memory representation of an operand, not only on its value:
 # np.minimum / np.maximum / np.fmod have no usable object loop, and a computed list of rows IS an object array
-REP_CLASS = {"eval_dyad_minimum": "no-object-loop", "eval_dyad_maximum": "no-object-loop", "eval_dyad_remainder": "no-object-loop",
-             # a computed list of rows is a 1-D object array: against a literal matrix NumPy aligns trailing axes
-             "eval_dyad_add": "broadcast", "eval_dyad_subtract": "broadcast", "eval_dyad_multiply": "broadcast", "eval_dyad_divide": "broadcast",
-             "eval_monad_expand_where": "expand-empty", "eval_monad_transpose": "transpose-object-rows"}
+REP_CLASS = {  # a computed list of rows is a 1-D object array: against a literal matrix NumPy aligns trailing axes
+             "eval_dyad_add": "broadcast", "eval_dyad_subtract": "broadcast", "eval_dyad_multiply": "broadcast", "eval_dyad_divide": "broadcast"}
 
 # witnesses of the Coq `_refuted` theorems, replayed on the implementation at every run: class -> (function, a, b)
 WITNESSES = {
